@@ -37,7 +37,9 @@ TRUSTED = [
     "Model/RegexSem.v (executable matching semantics) agrees with Python's re on the sampled words",
     "harness/translate/retree.py (escape tables, escape chains) via Python's ast",
 ]
-RULE = ("case = list of values (strings / formatted values); streams: corpus, grammar-generated "
+RULE = ("case = list of values (strings / formatted values); streams: corpus, set-boundary (every "
+        "special character of a set as member / range start / range end, escaped / encoded / raw, first / "
+        "middle / last, plain and complemented), grammar-generated "
         "patterns of the supported subset, near-miss mutations and short metacharacter strings, "
         "f-string interleavings, value lists violating the Cursor precondition; non-trivial = "
         "the pattern parses to a tree with at least one quantifier, character set or group, or "
@@ -356,11 +358,21 @@ def streams(ctx: lib.Ctx) -> None:
         add("corpus", v)
     for v in raw_corpus():
         add("raw-values", v)
+    boundary = gen.set_boundary_cases()
+    if not ctx.thorough:
+        # quick: everything about - ^ ] [ and the backslash, a third of the white-space cases
+        keep = [v for v in boundary if not any(w in v[0] for w in
+                ("\\t", "\\n", "\\r", "\\f", "\\v", "\\x09", "\\x0a", "\\x0d", "\\x0c", "\\x0b",
+                 "\t", "\n", "\r", "\f", "\v"))]
+        rest = [v for v in boundary if v not in keep]
+        boundary = keep + rng.sample(rest, len(rest) // 3)
+    for v in boundary:
+        add("set-boundary", v)
     saved = ctx.work.parent.parent / "harness" / "corpus" / "c16.json"
     if saved.exists():
         for v in json.loads(saved.read_text()):
             add("corpus", dec(v))
-    n_gram = ctx.n(600, 6000)
+    n_gram = ctx.n(500, 6000)
     grams = [gen.gen_pattern(rng, fvs=False) for _ in range(n_gram)]
     for g in grams:
         add("grammar", g)
